@@ -93,6 +93,7 @@ def generate(seed: int, tier: str) -> Dict[str, Any]:
                 deltas = [{"kind": "edge" if t.startswith("e:") else "node", "id": t, "attr": "weight", "delta": m, "op_idx": None}
                           for t, m in zip(ro.sample(TARGETS, len(TARGETS)), mags)]
             fault = {"export": ro.chance(0.12), "consume": ro.chance(0.15), "garbage_w": ro.choice([None] * 9 + [[None], ["abc"], [[1]]]),
+                     "export_garbage": ro.choice([None] * 10 + ["tuple_keys", "set_value"]),
                      "batch": ro.weighted([("ok", 5), ("raise", 3), ("odd:" + ro.choice(ODD_RESULTS), 2)]),
                      "singles": sorted(set(ro.randint(0, 5) for _ in range(ro.choice([0, 0, 1, 2])))),
                      "exc": ro.choice(["RuntimeError", "ValueError", "KeyError", "OSError"])}
@@ -172,6 +173,10 @@ class RecordingStore(InMemoryGraphStore):
         if self.fault.get("export"):
             self.export_raised = getattr(self, "export_raised", 0) + 1
             raise _EXC[self.fault.get("exc", "RuntimeError")]("simulated export failure")
+        if self.fault.get("export_garbage"):
+            # ... or hand back something no snapshot can hold (a set, a tuple-keyed mapping)
+            self.export_garbage_seen = getattr(self, "export_garbage_seen", 0) + 1
+            return {"weights": {("node", "n:a", "weight"): 0.5}, "tags": {"x", "y"}} if self.fault["export_garbage"] == "tuple_keys" else {"tags": {"x", "y"}}
         if self.fault.get("garbage_w"):
             # ... and a weight map in a bad state: an entry that holds no number, an entry under a malformed key
             self.w = {("node", "n:a", "weight"): 0.5, ("node", "n:b", "weight"): self.fault["garbage_w"][0], "plain": 1.0}
